@@ -153,7 +153,7 @@ theorem gint_eq : gint = @semiringScalar GInt gintCommRing.toCommSemiring := by
   · funext x y
     show (x.1 * y.1 - x.2 * y.2, x.1 * y.2 + x.2 * y.1) = gintEquiv.symm (gintEquiv x * gintEquiv y)
     apply Prod.ext
-    · simp [gintEquiv, Zsqrtd.mul_re]; ring
-    · simp [gintEquiv, Zsqrtd.mul_im]
+    · simp [gintEquiv, Zsqrtd.re_mul]; ring
+    · simp [gintEquiv, Zsqrtd.im_mul]
 
 end QG.Lemmas.Binary
